@@ -3,6 +3,8 @@ package main
 import (
 	"encoding/json"
 	"fmt"
+	"io"
+	"net/http"
 	"os"
 	"os/exec"
 	"path/filepath"
@@ -52,6 +54,13 @@ func (h *history) add(client int, kind string, a, b uint64, s string) uint64 {
 	return t
 }
 
+// snapshot returns a copy of the events recorded so far (late callbacks may still be appending).
+func (h *history) snapshot() []hev {
+	h.mu.Lock()
+	defer h.mu.Unlock()
+	return append([]hev{}, h.evs...)
+}
+
 var reStamp = regexp.MustCompile(`stamp:b(\d+):v(\d+)`)
 
 type c20Params struct {
@@ -63,6 +72,7 @@ type c20Params struct {
 	Watch    bool
 	Reenter  bool
 	Inject   bool
+	Serve    bool
 }
 
 type c20CtxState struct {
@@ -92,6 +102,12 @@ func runHistory(p c20Params, scratch string) (h *history, ctxID uint64, hung boo
 		}
 	}
 	files := []string{"entry", "a", "b", "c", "shim"}
+	trigger := filepath.Join(scratch, "trigger.txt")
+	os.WriteFile(trigger, []byte("v1"), 0o644)
+	var servePort int32
+	var served int32
+	httpc := &http.Client{Timeout: 30 * time.Second, Transport: &http.Transport{DisableKeepAlives: true}}
+	var serveRequests int64
 	plugin := api.Plugin{Name: "store", Setup: func(b api.PluginBuild) {
 		for k := 0; k < 2; k++ {
 			k := k
@@ -129,7 +145,11 @@ func runHistory(p c20Params, scratch string) (h *history, ctxID uint64, hung boo
 			if name == "a" {
 				body = "import {c} from 'virtual:c'; console.log(c);\n" + body
 			}
-			return api.OnLoadResult{Contents: &body, ResolveDir: scratch}, nil
+			res := api.OnLoadResult{Contents: &body, ResolveDir: scratch}
+			if p.Watch {
+				res.WatchFiles = []string{trigger} // a real file the edit operation rewrites, so the watcher has something to detect
+			}
+			return res, nil
 		})
 		for k := 0; k < 2; k++ {
 			k := k
@@ -208,14 +228,43 @@ func runHistory(p c20Params, scratch string) (h *history, ctxID uint64, hung boo
 					h.add(c, "ret:rebuild", bs, ver, outcome)
 				case op < 13:
 					v := atomic.AddInt64(&version, 1)
+					if p.Watch {
+						os.WriteFile(trigger, []byte(fmt.Sprint("v", v)), 0o644)
+					}
 					h.add(c, "edit", uint64(v), 0, "")
 				case op < 16:
 					h.add(c, "call:cancel", 0, 0, "")
 					ctx.Cancel()
 					h.add(c, "ret:cancel", 0, 0, "")
 				case op == 16 && p.Watch:
+					h.add(c, "call:watch", 0, 0, "")
 					err := ctx.Watch(api.WatchOptions{})
-					h.add(c, "watch", 0, 0, fmt.Sprint(err))
+					h.add(c, "ret:watch", 0, 0, fmt.Sprint(err))
+					if crng.Intn(2) == 0 {
+						time.Sleep(130 * time.Millisecond) // longer than one polling interval: lets the watcher find an edit
+					}
+				case op == 18 && p.Serve:
+					if atomic.CompareAndSwapInt32(&served, 0, 1) {
+						port := 20000 + int((p.Seed*7919+uint64(c)*31)%30000)
+						h.add(c, "call:serve", 0, 0, "")
+						_, err := ctx.Serve(api.ServeOptions{Host: "127.0.0.1", Port: port, OnRequest: func(a api.ServeOnRequestArgs) {
+							atomic.AddInt64(&serveRequests, 1)
+							if atomic.LoadInt32(&disposed) == 2 {
+								h.add(-1, "callback_after_dispose", 0, 0, "serve on-request")
+							}
+						}})
+						h.add(c, "ret:serve", 0, 0, fmt.Sprint(err))
+						if err == nil {
+							atomic.StoreInt32(&servePort, int32(port))
+						}
+					}
+				case op == 19 && p.Serve:
+					if port := atomic.LoadInt32(&servePort); port != 0 {
+						// the dev server builds on request: fetch the listing, then the first script
+						h.add(c, "call:http", 0, 0, "")
+						outcome, bs, ver := c20Fetch(httpc, int(port))
+						h.add(c, "ret:http", bs, ver, outcome)
+					}
 				case op == 17 && i > p.Ops/2:
 					atomic.AddInt32(&inflightDispose, 1)
 					atomic.CompareAndSwapInt32(&disposed, 0, 1)
@@ -247,6 +296,55 @@ func runHistory(p c20Params, scratch string) (h *history, ctxID uint64, hung boo
 	}
 	time.Sleep(2 * time.Millisecond)
 	return h, ctxID, false, ""
+}
+
+var reHref = regexp.MustCompile(`href="([^"]+\.js)"`)
+
+// c20Fetch asks the context's dev server for its script (every request runs or joins a build).
+func c20Fetch(hc *http.Client, port int) (outcome string, bs, ver uint64) {
+	get := func(path string) (string, error) {
+		resp, err := hc.Get(fmt.Sprintf("http://127.0.0.1:%d%s", port, path))
+		if err != nil {
+			return "", err
+		}
+		defer resp.Body.Close()
+		b, err := io.ReadAll(resp.Body)
+		return string(b), err
+	}
+	list, err := get("/")
+	if err != nil {
+		return "error:" + trunc(err.Error(), 80), 0, 0
+	}
+	m := reHref.FindStringSubmatch(list)
+	if m == nil {
+		return "no-script", 0, 0
+	}
+	href := m[1]
+	if !strings.HasPrefix(href, "/") {
+		href = "/" + href
+	}
+	body, err := get(href)
+	if err != nil {
+		return "error:" + trunc(err.Error(), 80), 0, 0
+	}
+	stamps := map[string]bool{}
+	for _, m := range reStamp.FindAllStringSubmatch(body, -1) {
+		stamps[m[1]] = true
+		fmt.Sscanf(m[1], "%d", &bs)
+		fmt.Sscanf(m[2], "%d", &ver)
+	}
+	if len(stamps) > 1 {
+		var ks []string
+		for k := range stamps {
+			ks = append(ks, k)
+		}
+		sort.Strings(ks)
+		return "mixed:" + strings.Join(ks, ","), bs, ver
+	}
+	if len(stamps) == 0 {
+		return "no-stamp", 0, 0
+	}
+	return "ok", bs, ver
 }
 
 type c20Viol struct {
@@ -316,7 +414,7 @@ func checkHistory(evs []hev, hookEvs []hev) (viols []c20Viol, patterns map[strin
 				v("on-end-before-outputs-written", "an on-end callback ran while reported output "+filepath.Base(e.S)+" was missing or different on disk")
 			}
 		case "callback_after_dispose":
-			v("work-after-dispose", "a "+e.S+" callback ran after Dispose() had returned")
+			v("work-after-dispose:"+strings.ReplaceAll(e.S, " ", "-"), "a "+e.S+" callback ran after Dispose() had returned")
 		}
 	}
 	for seq, fw := range firstWork {
@@ -432,6 +530,19 @@ func checkHistory(evs []hev, hookEvs []hev) (viols []c20Viol, patterns map[strin
 			default:
 				patterns["error-result"]++
 			}
+		case e.Kind == "ret:http":
+			patterns["http:"+strings.SplitN(e.S, ":", 2)[0]]++
+			if strings.HasPrefix(e.S, "mixed:") {
+				v("served-file-mixes-builds", "a file served by the dev server contains modules stamped by different builds: "+e.S)
+			} else if e.S == "ok" {
+				if _, ok := pluginToHook[e.A]; !ok {
+					v("served-file-of-unknown-build", fmt.Sprintf("the dev server returned stamps of build %d, which never started", e.A))
+				}
+			}
+		case e.Kind == "ret:watch":
+			patterns["watch"]++
+		case e.Kind == "ret:serve":
+			patterns["serve"]++
 		case e.Kind == "ret:cancel":
 			call := openCalls[e.Client]
 			disposing := false
@@ -456,6 +567,34 @@ func checkHistory(evs []hev, hookEvs []hev) (viols []c20Viol, patterns map[strin
 			}
 		}
 	}
+	// builds that no client call started (watch mode's first build and the builds the polling watcher triggers)
+	{
+		type span struct{ a, b uint64 }
+		var spans []span
+		open := map[int]uint64{}
+		for _, e := range all {
+			if e.Kind == "call:rebuild" || e.Kind == "call:http" {
+				open[e.Client] = e.Tick
+			} else if e.Kind == "ret:rebuild" || e.Kind == "ret:http" {
+				spans = append(spans, span{open[e.Client], e.Tick})
+				delete(open, e.Client)
+			}
+		}
+		for _, t := range open {
+			spans = append(spans, span{t, ^uint64(0)})
+		}
+		for _, hs := range order {
+			inCall := false
+			for _, sp := range spans {
+				if builds[hs].begin > sp.a && builds[hs].begin < sp.b {
+					inCall = true
+				}
+			}
+			if !inCall {
+				patterns["watch-build"]++
+			}
+		}
+	}
 	if disposeRet != 0 {
 		for _, hs := range order {
 			if builds[hs].begin > disposeRet {
@@ -467,7 +606,7 @@ func checkHistory(evs []hev, hookEvs []hev) (viols []c20Viol, patterns map[strin
 }
 
 func c20Child(r *Run) {
-	n := r.pick(1500, 12000)
+	n := r.pick(1000, 12000)
 	scratch, _ := os.MkdirTemp("/tmp", "verif-c20-")
 	defer os.RemoveAll(scratch)
 	var hookMu sync.Mutex
@@ -504,7 +643,7 @@ func c20Child(r *Run) {
 					return
 				}
 				rng := newRng(r.Seed, fmt.Sprint("c20h", i))
-				p := c20Params{Clients: []int{2, 4, 8}[rng.Intn(3)], Ops: 10 + rng.Intn(30), Seed: r.Seed*100000 + uint64(i), Write: i%5 == 0, FailRate: []int{0, 0, 60}[rng.Intn(3)], Watch: false, Reenter: i%3 == 0, Inject: i%4 == 0}
+				p := c20Params{Clients: []int{2, 4, 8}[rng.Intn(3)], Ops: 10 + rng.Intn(30), Seed: r.Seed*100000 + uint64(i), Write: i%5 == 0, FailRate: []int{0, 0, 60}[rng.Intn(3)], Watch: i%6 == 1, Reenter: i%3 == 0, Inject: i%4 == 0, Serve: i%6 == 4}
 				runtime.GOMAXPROCS([]int{2, 4, 16}[i%3])
 				api.VerifSetYield(p.Seed, []int{0, 200, 500}[i%3])
 				dir := filepath.Join(scratch, fmt.Sprint("h", i))
@@ -519,14 +658,15 @@ func c20Child(r *Run) {
 				he := hookEvs[ctxID]
 				delete(hookEvs, ctxID)
 				hookMu.Unlock()
-				vs, pats := checkHistory(h.evs, he)
+				hevs := h.snapshot()
+				vs, pats := checkHistory(hevs, he)
 				mu.Lock()
-				events += len(h.evs) + len(he)
+				events += len(hevs) + len(he)
 				for k, c := range pats {
 					patterns[k] += c
 				}
 				var sb strings.Builder
-				all := append(append([]hev{}, h.evs...), he...)
+				all := append(append([]hev{}, hevs...), he...)
 				sort.Slice(all, func(a, b int) bool { return all[a].Tick < all[b].Tick })
 				for _, e := range all {
 					sb.WriteString(fmt.Sprint(e.Client, e.Kind, "|"))
@@ -555,10 +695,11 @@ func headEvents(a []hev, n int) []hev {
 }
 
 func checkC20(r *Run) {
-	r.Rule("random histories of k∈{2,4,8} clients issuing Rebuild / Cancel / Dispose / edit-store operations (10–40 each) against one shared context whose inputs come from a versioned in-memory store through plugins with two on-start and two on-end callbacks, blocking, failing and re-entering (Resolve from a callback, injected files); executed by a -race build with seeded yields and GOMAXPROCS 2/4/16; " +
-		"every call/return, callback and build begin/end (hook inside the context's critical sections) is stamped by one logical clock and the history is checked offline (mutual exclusion, result identity and freshness, Cancel/Dispose wait, nothing after Dispose, on-start before resolve/load, one load per module, on-end once, outputs on disk at on-end); non-trivial = distinct interleaving (hash of the merged event order)")
+	r.Rule("(a) random histories of k∈{2,4,8} clients issuing Rebuild / Cancel / Dispose / Watch / Serve + HTTP GET / edit-store operations (10–40 each) against one shared context whose inputs come from a versioned in-memory store through plugins with two on-start and two on-end callbacks, blocking, failing and re-entering (Resolve from a callback, injected files); executed by a -race build with seeded yields and GOMAXPROCS 2/4/16; " +
+		"every call/return, callback and build begin/end (hook inside the context's critical sections) is stamped by one logical clock and the history is checked offline (mutual exclusion, result identity and freshness, Cancel/Dispose wait, nothing after Dispose, on-start before resolve/load, one load per module, on-end once, outputs on disk at on-end); (b) stdio service histories: a protocol client with k∈{1,2,4,8} writer goroutines (coalesced and fragmented packets) sends transform / build / context build / rebuild / cancel / dispose / watch / serve / format-msgs / analyze-metafile / invalid requests and unawaited rebuild-cancel-dispose bursts to `esbuild --service --ping` built with -race, answers on-start/on-resolve/on-load/on-end/ping, closes stdin in 5 ways (orderly, after an unawaited burst, after a truncated packet, with live contexts and stdout closed, in the middle of the history), logs every packet and checks the log offline (one response per fully sent request with its own id and its own payload, no foreign ids, callback order, one load per module, result identity and freshness through stamps the host plants, cancel/dispose wait, nothing after dispose, process exit); non-trivial = distinct interleaving (hash of the merged event order / packet order)")
 	r.Assume("Rebuild on a disposing/disposed context returns an empty result (third outcome, neither cancellation nor build)")
-	r.Assume("the stdio service protocol client is not built in this version of the check; the Go API surface is covered")
+	r.Assume("files fetched from the dev server may come from a recently finished build (esbuild reuses a result for 250 ms by design), so only their consistency is checked, not their freshness")
+	r.Assume("stdio service: after stdin is closed the host cannot answer callbacks, so callback-order and result-identity clauses are judged on the part of each packet log before the EOF; every fully sent request must still be answered")
 	self, _ := os.Executable()
 	raceBin := filepath.Join(filepath.Dir(self), "vh-race")
 	if _, err := os.Stat(raceBin); err != nil {
@@ -604,7 +745,7 @@ func checkC20(r *Run) {
 				for k, v := range ps {
 					r.Count("pattern:"+k, int(v.(float64)))
 				}
-				for _, need := range []string{"join", "joined-running-build", "started-by-call", "cancel", "dispose"} {
+				for _, need := range []string{"join", "joined-running-build", "started-by-call", "cancel", "dispose", "watch", "serve", "http:ok", "watch-build"} {
 					if _, ok := ps[need]; !ok {
 						r.Inconclusive("pattern never observed: " + need)
 					}
